@@ -67,6 +67,7 @@ def parse_template(text: str) -> List[Token]:
     index_start = 0
     index_end = len(text)
     lineno_offset = 0
+    verbatim: Optional[str] = None  # `Lexer.verbatim` of the Django lexer, carried over our own parsing
 
     while index_start < index_end:
         broken_token: Optional[Token] = None
@@ -74,6 +75,7 @@ def parse_template(text: str) -> List[Token]:
         # We use DebugLexer because we need to get the position of the tokens.
         # DebugLexer and Lexer have very similar speeds, Debug is about 33% slower.
         lexer = DebugLexer(text[index_start:index_end])
+        lexer.verbatim = verbatim or False
         tokens: List[Token] = lexer.tokenize()
 
         for token in tokens:
@@ -92,6 +94,9 @@ def parse_template(text: str) -> List[Token]:
             fixed_token = _detailed_tag_parser(text[broken_token_start:], broken_token.lineno, broken_token_start)
 
             resolved_tokens.append(fixed_token)
+            # Django's `Lexer.create_token()` never sees this token, so track `{% verbatim "x" %}` here
+            is_verbatim = fixed_token.contents[:9] in ("verbatim", "verbatim ")
+            verbatim = "end%s" % fixed_token.contents if is_verbatim else None
             index_start = fixed_token.position[1]
             lineno_offset = (  # `fixed_token.lineno` already includes the previous offset
                 fixed_token.lineno - 1  # -1 because lines are 1-indexed
